@@ -48,7 +48,10 @@ def session(bdir, sid, seed, corpus, sz, contempt):
     fixed = {}
     if contempt:
         fixed["Contempt"] = str(contempt)
-    if rnd.random() < 0.6:
+    tbsession = rnd.random() < 0.3     # the smallest table that can host an on-demand tablebase + a tablebase search right before Clear Hash
+    if tbsession:
+        fixed["Hash"] = "8"
+    elif rnd.random() < 0.6:
         fixed["Hash"] = "1"        # a small table makes slot replacement (and hence the generation counter) matter early
     A = uci.Engine(os.path.join(bdir, "texel-" + net))
     try:
@@ -96,6 +99,11 @@ def session(bdir, sid, seed, corpus, sz, contempt):
             if not ok:
                 return ev, "no-bestmove in related prior search"
             ev.append({"e": "Cmd", "proc": "A", "kind": "search", "tb": False, "go": "related"})
+        if tbsession:
+            lines = do_search(A, rnd.choice(TBFENS), "infinite", 0.8)
+            if lines is None:
+                return ev, "no-bestmove in tablebase prior search"
+            ev.append({"e": "Cmd", "proc": "A", "kind": "search", "tb": True, "go": "infinite(tb)"})
         for name in changed:       # revert option changes
             A.send(f"setoption name {name} value {DEFAULTS[name]}")
             ev.append({"e": "Cmd", "proc": "A", "kind": "setoption", "name": name, "value": DEFAULTS[name], "isDefault": True})
@@ -103,7 +111,9 @@ def session(bdir, sid, seed, corpus, sz, contempt):
         ev.append({"e": "Cmd", "proc": "A", "kind": "clearhash"})
         A.isready()
         wtm = " w " in probe["fen"]
-        if rnd.random() < 0.8:
+        if tbsession:
+            go = rnd.choice(["nodes 150000", "nodes 300000", "depth 10"])
+        elif rnd.random() < 0.8:
             go = f"depth {rnd.randint(*sz['depths'])}"
         else:
             go = f"nodes {rnd.choice([5000, 30000, 80000])}"
